@@ -96,7 +96,7 @@ SETTINGS_REC = ('rec', 'dtw.DTWSettings', dict(
     use_c=('const', False)))
 
 contract(
-    'dtw.distance',
+    'dtw.distance#value',
     params={'s1': 'series', 's2': 'series', 'only_ub': 'bool', 'kwargs': {}},
     requires=['length(s1) >= 1', 'length(s2) >= 1'],
     ensures=['result == DTWP(s1, s2, only_ub, kwargs)'],
@@ -119,6 +119,7 @@ contract(
                                     ('euclid', ('rec', 'dtw.DTWSettings', dict(SETTINGS_REC[2], inner_dist=('const', 'euclidean')))),
                                     ('psi4', ('rec', 'dtw.DTWSettings', dict(SETTINGS_REC[2], psi=('tuple', 'int', 'int', 'int', 'int')))))],
     bind={'block0': 'block', 'kw': 'settings.kwargs()'},
+    callee_views={'dtw.distance': 'dtw.distance#value'},
     requires=['ValidBlock(block, length(s))', '1 <= length(s) <= 2**26',
               'forall(lambda k: implies(0 <= k < length(s), length(s[k]) >= 1))'],
     ensures=['length(result) == Len(block0, length(s))',
